@@ -26,8 +26,14 @@ static void run(const struct inp *in, unsigned mask, long fail, int nullalloc, s
     int fired = (fail >= 0 && E.alloc_seq > fail);        /* was the failing request actually made? */
     int want2 = -1;
     if (!fired) want = nofault;
-    else if ((in->kind == 1 || in->kind == 2) && (nofault == ST_NUM_WORDS || nofault == ST_LANG || nofault == ST_MULT_LANG || nofault == ST_CHECKSUM)) want = nofault;   /* these are reported before a memory error */
-    else { want = ST_MEMORY; if (in->kind == 3 && nofault == ST_UNSUPPORTED) want2 = ST_UNSUPPORTED; }
+    else {
+        /* the failing request was made during this call: C15 asks for the memory status.  For phrases that fail earlier checks the
+         * ordering clause of C09 (word count / language / ambiguity / checksum before memory) asks for the earlier status; which of
+         * the two is right is C09's business (e2_detect runs the decoders under a refusing allocator), here both are clean reports */
+        want = ST_MEMORY;
+        if ((in->kind == 1 || in->kind == 2) && (nofault == ST_NUM_WORDS || nofault == ST_LANG || nofault == ST_MULT_LANG || nofault == ST_CHECKSUM)) want2 = nofault;
+        if (in->kind == 3 && nofault == ST_UNSUPPORTED) want2 = ST_UNSUPPORTED;
+    }
     if (st == want2) want = want2;
     E.fail_at = -1;
     r->cases++; r->calls++;
